@@ -787,6 +787,7 @@ func TestVerifC10(t *testing.T) {
 	c10StoreToStore(t, c)
 	c10Transport(t, c, shapes)
 	c10EmptyWriteAfterDone(t, c, shapes[0])
+	c10CrashStates(t, c, shapes)
 	rep.vfCompareSegments("snapstream", c.segOps, c.segImpl)
 }
 
@@ -1068,6 +1069,84 @@ func c10Transport(t *testing.T, c *c10Ctx, shapes []*c10Shape) {
 				// different bytes of the right length reach the sink: it has to refuse them
 				c.one(s, got, "transport:"+m.name, 0, 3, false)
 			}
+		}
+	}
+}
+
+// c10CrashStates: the directory states a crash can leave during Sink.Close, built by hand
+// (k = number of completed steps: 0 data only in <id>.tmp, 1 + sidecars, 2 + meta.json, 3 synced,
+// 4.. renamed into place), then a real store start (Store.check) and what it lists.
+func c10CrashStates(t *testing.T, c *c10Ctx, shapes []*c10Shape) {
+	for _, s := range shapes {
+		if !s.real {
+			continue
+		}
+		for k := 0; k <= 6; k++ {
+			root, _ := os.MkdirTemp(c.root, "crash")
+			id := "2-77-1700000000077"
+			dir := filepath.Join(root, id)
+			if k < 4 {
+				dir = tmpName(dir)
+			}
+			os.MkdirAll(dir, 0o755)
+			files := map[string][]byte{"data.db": s.db}
+			for i, w := range s.wals {
+				files[fmt.Sprintf("data-%08d.wal", i)] = w
+			}
+			for name, b := range files {
+				os.WriteFile(filepath.Join(dir, name), b, 0o644)
+				if k >= 1 {
+					sidecar.WriteFile(filepath.Join(dir, name)+crcSuffix, c10CRC(b))
+				}
+			}
+			if k >= 2 {
+				writeMeta(dir, &raft.SnapshotMeta{ID: id, Index: 77, Term: 2})
+			}
+			st, err := NewStore(root)
+			tok := "none"
+			info := map[string]interface{}{"shape": s.name, "steps_completed": k}
+			if err != nil {
+				tok = "store-does-not-start:" + err.Error()
+			} else {
+				st.fatalFn = nil
+				metas, lerr := st.List()
+				switch {
+				case lerr != nil:
+					tok = "list-fails:" + lerr.Error()
+				case len(metas) == 0:
+					if _, serr := os.Stat(tmpName(filepath.Join(root, id))); serr == nil {
+						tok = "tmp-directory-left-behind"
+					}
+				default:
+					_, rc, oerr := st.Open(metas[0].ID)
+					if oerr != nil {
+						tok = "partial:" + oerr.Error()
+					} else {
+						out := filepath.Join(root, "r.db")
+						_, rerr := Restore(rc, out)
+						rc.Close()
+						got, _ := os.ReadFile(out)
+						want := s.db
+						if len(s.wals) > 0 {
+							want = s.replayed
+						}
+						if rerr != nil || !bytes.Equal(got, want) {
+							tok = fmt.Sprintf("partial:restore err=%v", rerr)
+						} else {
+							tok = "complete"
+						}
+					}
+				}
+				st.Close()
+			}
+			c.segOps = append(c.segOps, []string{fmt.Sprintf("crash %d", k)})
+			c.segImpl = append(c.segImpl, []string{tok})
+			c.rep.Count("crash-states")
+			c.rep.Case(fmt.Sprintf("crash|%s|%d", s.name, k), true)
+			if tok != "none" && tok != "complete" {
+				c.rep.Fail("crash-during-close-leaves-partial-snapshot", fmt.Sprintf("shape %s, %d steps of Sink.Close completed: %s", s.name, k, tok), info)
+			}
+			os.RemoveAll(root)
 		}
 	}
 }
